@@ -15,6 +15,8 @@ pub mod c11;
 pub mod c13;
 pub mod c14;
 pub mod c15;
+pub mod c16;
+pub mod c17;
 pub mod c18;
 
 pub fn run(prop: &str, ctx: &mut Ctx) -> bool {
@@ -30,6 +32,8 @@ pub fn run(prop: &str, ctx: &mut Ctx) -> bool {
         "C13" => c13::run(ctx),
         "C14" => c14::run(ctx),
         "C15" => c15::run(ctx),
+        "C16" => c16::run(ctx),
+        "C17" => c17::run(ctx),
         "C18" => c18::run(ctx),
         _ => return false,
     }
@@ -49,6 +53,8 @@ pub fn replay(prop: &str, case: &Value) -> Option<Vec<Failure>> {
         "C13" => c13::replay(case),
         "C14" => c14::replay(case),
         "C15" => c15::replay(case),
+        "C16" => c16::replay(case),
+        "C17" => c17::replay(case),
         "C18" => c18::replay(case),
         _ => return None,
     })
